@@ -73,7 +73,7 @@ func c06Labels(s ttxStream) (bool, []string) {
 			ls = append(ls, l)
 		}
 	}
-	var split, nat, parity, multirun, erase, noflag bool
+	var split, nat, parity, multirun, erase, noflag, rebox bool
 	for _, in := range s.Instances {
 		noflag = noflag || in.NoFlag
 		split = split || in.SplitAt > 0
@@ -82,9 +82,13 @@ func c06Labels(s ttxStream) (bool, []string) {
 		for _, r := range in.Rows {
 			parity = parity || len(r.BadParity) > 0
 			multirun = multirun || len(r.Segs) > 1
+			for _, sg := range r.Segs {
+				rebox = rebox || sg.ReboxAt > 0
+			}
 		}
 	}
 	add(noflag, "instance-without-subtitle-flag")
+	add(rebox, "two-boxes-on-a-row")
 	add(!s.Serial, "parallel-mode-interleaved-distractor")
 	add(s.Serial, "serial-mode")
 	add(!s.OptPage, "auto-page")
